@@ -800,6 +800,9 @@ func (w *worker) Run(ctx context.Context, req taskRunRequest, reply *taskRunRepl
 	}
 	task.state = TaskRunning
 	task.Unlock()
+	// The task's scope describes this run only: clear what an earlier run of
+	// the task on this machine (since discarded, lost or failed) left in it.
+	task.Scope.Reset(nil)
 	// Gather inputs from the bigmachine cluster, dialing machines
 	// as necessary.
 	var (
